@@ -25,6 +25,13 @@ ELEM_ADAPTOR = re.compile(r"(^std::iter::Iterator::|as std::iter::Iterator>::)(f
 PASS_ITER = re.compile(r"(^std::iter::Iterator::|as std::iter::Iterator>::|as std::iter::IntoIterator>::|<impl std::iter::IntoIterator for .*>::)(into_iter|iter|by_ref|peekable|fuse|copied|cloned|inspect)$|^core::slice::<impl \[T\]>::iter$|^std::vec::Vec::<T, A>::iter$")
 
 
+OPT_PAYLOAD_COMBINATOR = re.compile(r"^std::(option::Option|result::Result)::<T(, E)?>::(map|and_then|map_or|map_or_else|is_some_and|is_ok_and|is_none_or|filter|inspect|zip_with)$")
+
+
+def _first_param(e):
+    return e[0] == "carg" and e[2] == 2
+
+
 def is_args(e, body_root, args_param):
     e = strip_refs(e)
     while e[0] == "call" and e[1] and (e[1]["path"].endswith("Deref>::deref") or e[1]["path"].endswith("::as_slice")):
@@ -208,6 +215,13 @@ def describe(body, e, args_param, depth=0):
                             recv = parent.xtrace(t["args"][0])
                             v = view_of(recv, args_param)
                             return Descriptor("elem", v, iteration=("adaptor", parent.key, bi), src=recv)
+                        if ai >= 1 and OPT_PAYLOAD_COMBINATOR.search(p) and x[1].get("closure") and _first_param(e):
+                            # `args.last().map(|last| …)`, `args.get(2).map_or(d, |x| …)`, `first().and_then(|x| …)`: the
+                            # closure's parameter is the success payload of the receiver — the operand the receiver denotes
+                            recv = strip_refs(parent.xtrace(t["args"][0]))
+                            d = describe(parent, ("field", ("downcast", recv, "Ok" if "Result" in p else "Some"), 0), args_param, depth + 1)
+                            if d.kind != "unknown":
+                                return d
                         return Descriptor("unknown", None, text="closure handed to " + p.rsplit("::", 1)[-1])
         return Descriptor("unknown", None, text="closure parameter")
     if e[0] == "call" and e[1]:
